@@ -4,6 +4,8 @@ truth of the agent database, each instance once, for every bulk size and
 every conformant truncation policy of the agent.
 """
 
+import itertools
+
 from . import walkcommon as wc
 from .. import gen, rig
 
@@ -153,6 +155,19 @@ def run(R):
             big[(1, 3, 9, 4, 1, r)] = ("int", -r)
         big[(1, 3, 9, 3, 1, 1)] = ("int", 0)
         big[(1, 3, 9, 5, 0)] = ("int", 5)
+        # more than 4096 instances delivered by one walk: two long columns with a few
+        # unrequested objects between them (and directly adjacent ones)
+        long_db = {}
+        for r in range(1, 2201):
+            long_db[(1, 3, 10, 2, 1, r)] = ("int", r)
+            long_db[(1, 3, 10, 4, 1, r)] = ("int", -r)
+            if r <= 150:
+                long_db[(1, 3, 10, 5, 1, r)] = ("int", 7)
+        for x in (1, 2, 3):
+            long_db[(1, 3, 10, 3, x)] = ("int", 0)
+        for roots, bulk in (([(1, 3, 10, 2), (1, 3, 10, 4)], 50), ([(1, 3, 10, 4), (1, 3, 10, 2)], 25), ([(1, 3, 10, 4), (1, 3, 10, 5), (1, 3, 10, 2)], 40)):
+            run_one(R, "v2c", roots, long_db, "bulkwalk", bulk, "full", 1, "long")
+            R.mon["walks_of_more_than_4096_instances"] += 1
         for roots in ([(1, 3, 9, 2), (1, 3, 9, 4), (1, 3, 9, 1)], [(1, 3, 9, 2), (1, 3, 9, 4), (1, 3, 9, 3)], [(1, 3, 9, 4), (1, 3, 9, 3), (1, 3, 9, 2)]):
             for policy, bulk in (("partial_first", 20), ("partial_last", 25), ("fewer", 10)):
                 run_one(R, "v2c", roots, big, "bulkwalk", bulk, policy, 99, "big")
@@ -177,11 +192,18 @@ def run(R):
             roots, db = wc.gen_case(rng)
             if len(roots) < 2:
                 continue
-            for policy in ("partial_first_once:1", "partial_first_once:2", "partial_first_once:3", "one_binding"):
+            for policy in ("partial_first_once:1", "partial_first_once:2", "partial_first_once:3", "one_binding", "max_bindings:2", "max_bindings:3"):
                 for bulk in (2, 3, 10):
-                    for order in (roots, list(reversed(roots))):
+                    orders = [list(p) for p in itertools.permutations(roots)] if len(roots) <= 3 else [roots, list(reversed(roots))]
+                    for order in orders:
                         run_one(R, "v2c", order, db, "bulkwalk", bulk, policy, j, "cut-once")
                         R.mon["cut_once_walks"] += 1
+        cols = {(1, 3, 6, 1, 4, 1, 78, 1, c, i): ("int", c * 100 + i) for c in (5, 6, 7) for i in range(1, 6)}
+        for order in itertools.permutations([(1, 3, 6, 1, 4, 1, 78, 1, 5), (1, 3, 6, 1, 4, 1, 78, 1, 6), (1, 3, 6, 1, 4, 1, 78, 1, 7)]):
+            for policy in ("max_bindings:2", "max_bindings:1", "partial_first_once:2", "max_bindings:4"):
+                for bulk in (2, 3, 10):
+                    run_one(R, "v2c", list(order), cols, "bulkwalk", bulk, policy, 3, "adjacent-columns")
+                    R.mon["cut_once_walks"] += 1
         big = {(1, 3, 6, 1, 4, 1, 77, 1, i): ("int", i) for i in range(1, 31)}
         big.update({(1, 3, 6, 1, 4, 1, 77, 2, i): ("str", b"x" * i) for i in range(1, 12)})
         for level in rig.AUTH_LEVELS:
